@@ -525,7 +525,7 @@ func c04Judge(c c04Case, res opResult) string {
 	}
 	if res.err != nil {
 		if c.dt != tensor.Float32 {
-			ev.Refused("C04-" + c.op) // only float32 must be computed
+			ev.Refused("C04-" + c.op + " " + c.dt.String() + ": " + refusalReason(res.err)) // only float32 must be computed
 			return ""
 		}
 		if c.op == "MatMul" && c.kfClass == "unit-matrix" && kfAccept("KF-C04-matmul-unit-matrix-refused") {
